@@ -187,8 +187,8 @@ func checkDag(evs []dag.Ev, n int, it DagItem, res *DagResult, label string) {
 		res.Sample = describeDag(evs)
 	}
 	report := func(key, variant, diff string, order []int) {
-		if strings.HasPrefix(it.Source, "named:") {
-			key = it.Source + "/" + key // hand-drawn DAGs are identified in the key (known findings are listed per input)
+		if strings.HasPrefix(it.Source, "named:") || strings.HasPrefix(it.Source, "harvest:") && len(it.Devs) == 0 {
+			key = it.Source + "/" + key // hand-drawn and harvested DAGs are identified in the key (known findings are listed per input)
 		}
 		res.Viol = append(res.Viol, ev.Violation{Property: "C03", Key: key,
 			What:   fmt.Sprintf("%s, variant %s: %s", label, variant, diff),
@@ -311,8 +311,14 @@ func checkDag(evs []dag.Ev, n int, it DagItem, res *DagResult, label string) {
 			o.Batch = b
 			v := run(evs, o)
 			res.Counters["batch_variants"]++
-			if d := dag.Compare(ref, v, true); d != "" {
-				report(fmt.Sprintf("batching-b%d", b), fmt.Sprintf("consensus pass every %d insertions (-1: once at the end)", b), d, nil)
+			// a conflict (a value both runs decided differs) and a difference in progress (one run has
+			// decided something the other has not, yet) are different findings and get different keys
+			if kind, d := dag.CompareKind(ref, v, true); d != "" {
+				key := fmt.Sprintf("batching-b%d", b)
+				if kind == "progress" {
+					key = fmt.Sprintf("batching-progress-b%d", b)
+				}
+				report(key, fmt.Sprintf("consensus pass every %d insertions (-1: once at the end)", b), d, nil)
 			}
 		}
 		// single "skip this pass" deviations
@@ -326,8 +332,12 @@ func checkDag(evs []dag.Ev, n int, it DagItem, res *DagResult, label string) {
 			o.Skip[i] = true
 			v := run(evs, o)
 			res.Counters["batch_variants"]++
-			if d := dag.Compare(ref, v, true); d != "" {
-				report("batching-skip1", fmt.Sprintf("no consensus pass after insertion %d", i), d, nil)
+			if kind, d := dag.CompareKind(ref, v, true); d != "" {
+				key := "batching-skip1"
+				if kind == "progress" {
+					key = "batching-progress-skip1"
+				}
+				report(key, fmt.Sprintf("no consensus pass after insertion %d", i), d, nil)
 				break
 			}
 		}
@@ -684,25 +694,31 @@ func init() {
 			phases = append(phases, phase{"all fork-free DAGs n=2, 4..10 events (other-parent in {none for first, last, second-last})", enumItems(2, 10, 4, small)})
 			phases = append(phases, phase{"all fork-free DAGs n=3, 4..7 events", enumItems(3, 7, 3, small)})
 		}
-		phases = append(phases, phase{"hand-drawn 4-creator DAGs of the repository's 'funky' shape (a creator's next witness precedes another creator's first descendant of its previous witness), plain and stacked on an extra round; a 76-event DAG whose round-1 fame election goes through a coin round", []DagItem{
+		phases = append(phases, phase{"hand-drawn 4-creator DAGs of the repository's 'funky' shape (a creator's next witness precedes another creator's first descendant of its previous witness), plain and stacked on an extra round; a 76-event DAG whose round-1 fame election goes through a coin round; a 52-event DAG in which the round-2 election closes before the round-1 election", []DagItem{
 			{Source: "named:funky", Variants: []string{"orders", "batch", "cuts", "cache"}, Level: 1, Static: true},
 			{Source: "named:funkystacked", Variants: []string{"orders", "batch", "cuts", "cache"}, Level: 1, Static: true},
 			{Source: "named:coinround", Variants: []string{"orders", "batch", "cuts"}, Level: 1, Static: true},
+			{Source: "named:outoforder", Variants: []string{"orders", "batch", "cuts", "cache"}, Level: 1, Static: true},
 		}})
 		var coinDev []DagItem
 		for k := 4; k < 76; k++ {
 			coinDev = append(coinDev, DagItem{Source: fmt.Sprintf("named:coinround~%d", k), Variants: []string{"orders", "cuts"}, Level: lvl, Static: true})
 		}
 		phases = append(phases, phase{"single-event deviations of the coin-round DAG (event k sees a one-step older event of its other-parent's creator, k=4..75), orders and cuts", coinDev})
+		var oooDev []DagItem
+		for k := 4; k < len(outOfOrderPlays); k++ {
+			oooDev = append(oooDev, DagItem{Source: fmt.Sprintf("named:outoforder~%d", k), Variants: []string{"orders", "batch", "cuts"}, Level: lvl, Static: true})
+		}
+		phases = append(phases, phase{"single-event deviations of the out-of-order-election DAG (k=4..51), orders, batchings and cuts", oooDev})
 		// (b) harvested DAGs
 		var hv []DagItem
-		for _, s := range []string{scStatic3, scStatic4, scSilent4, scLate4, scSilent5} {
+		for _, s := range []string{scStatic3, scStatic4, scSilent4, scLate4, scSilent5, scLaggards4, scPart4, "slow:4:4:1:120", "slow:4:5:0:120", "slow:4:2:0:120"} {
 			hv = append(hv, DagItem{Source: "harvest:" + s, Variants: allv, Level: lvl, Static: true})
 		}
 		for _, s := range []string{scJoin3, scLeave4, scJoin2} {
 			hv = append(hv, DagItem{Source: "harvest:" + s, Variants: []string{"orders", "store", "cache", "cuts"}, Level: lvl, Static: false})
 		}
-		phases = append(phases, phase{"final DAGs of the 8 E1 seeds (static: all variants; dynamic: orders, store, cache, cuts)", hv})
+		phases = append(phases, phase{"final DAGs of 13 E1 seeds (static 3/4, silent 4/5, late witness, one-way laggard, partition, three runs with one validator taking every 2nd/4th/5th turn only: all variants; join 3->4, leave 4->3, join 2->3: orders, store, cache, cuts)", hv})
 		var hd []DagItem
 		stride := 9
 		if th {
